@@ -266,6 +266,8 @@ val sieveP : policy
 
 type clock = { ck_o : ent list; ck_hand : nat }
 
+val esetcost : n -> n -> ent list -> ent list
+
 val clock_admit : n -> n -> clock -> clock
 
 val clock_remove : n -> clock -> clock
